@@ -329,6 +329,20 @@ fn eval_crc_meaning(buf: &[u8], target: u32, what: &str) -> Sigs {
         Decoded::Ok(f) => {
             if f.crc != target {
                 vec![(format!("C03/{what}/{class}"), format!("{what}: expected checksum {target:06x}, library reports {:06x}", f.crc))]
+            } else if what == "address" {
+                // the address/parity formats report the checksum as the sender's address in their
+                // text form too: the hex number behind "ICAO Address:"
+                let text = std::panic::catch_unwind(std::panic::AssertUnwindSafe(|| f.to_string())).unwrap_or_default();
+                let shown = text.lines().find(|l| l.contains("ICAO Address:")).map(|l| l.split("ICAO Address:").nth(1).unwrap_or("").trim_start_matches(' ').chars().take_while(|c| !c.is_whitespace()).collect::<String>());
+                match shown {
+                    // (some formats print the number without leading zeros: the value counts)
+                    Some(sx) if u32::from_str_radix(&sx, 16).ok() == Some(target) => vec![],
+                    Some(_) => {
+                        let line = text.lines().find(|l| l.contains("ICAO Address:")).unwrap_or("").to_string();
+                        vec![(format!("C03/address_shown/{class}"), format!("the frame's checksum is the sender's address {target:06x}, its report says `{line}`"))]
+                    }
+                    None => vec![],
+                }
             } else {
                 vec![]
             }
